@@ -82,6 +82,20 @@ def c_bundle(b):
     return '{| preset := %s; groups := %s |}' % (pre, grp)
 
 
+def c_document(doc):
+    """policy document (JSON names) -> Coq `document` term; names are resolved with the enumerations only"""
+    def sec(x):
+        return c_section({OT[t]: {OP[op]: PL[p] for op, p in ops.items()} for t, ops in x.items()})
+
+    def body(b):
+        if set(b) <= {'preset', 'groups'}:
+            pre = '(Some %s)' % sec(b['preset']) if 'preset' in b else 'None'
+            grp = '(Some %s)' % cp.lst(list(b['groups'].items()), lambda kv: '(%s, %s)' % (cp.string(kv[0]), sec(kv[1]))) if 'groups' in b else 'None'
+            return '(DSections %s %s)' % (pre, grp)
+        return '(DLegacy %s)' % sec(b)
+    return cp.lst(list(doc.items()), lambda kv: '(%s, %s)' % (cp.string(kv[0]), body(kv[1])))
+
+
 def c_policies(P):
     return cp.lst(list(P.items()), lambda kv: '(%s, %s)' % (cp.string(kv[0]), c_bundle(kv[1])))
 
@@ -383,7 +397,16 @@ def load_document(ctx, doc):
     P_engine.update(loaded)
     P_spec = copy.deepcopy(core_policy.policies)
     P_spec.update(doc_to_policies(doc))
+    _loaded_cases.append('(%s, %s, %s)' % (c_document(doc), c_policies(loaded), c_policies(doc_to_policies(doc))))
     return P_spec, P_engine
+
+
+_loaded_cases = []          # every document loaded in this run: (document, loader's result, harness reading of the document)
+HEADER_C = ('From Coq Require Import String ZArith List Bool.\n'
+            'From PK Require Import Policy.Policy Policy.PolicyFile.\n'
+            'Import ListNotations.\nOpen Scope Z_scope.\nOpen Scope string_scope.\n'
+            'Definition chk_loaded (c : document * policies * policies) : bool :=\n'
+            '  let \'(d, loaded, meaning) := c in policies_eqb (load_document d) loaded && policies_eqb (document_meaning d) meaning.\n')
 
 
 def policies_from_plain(plain):
@@ -1048,6 +1071,7 @@ def run(ctx):
                        '(policy shape, requester, groups) resp. (operation, placeholder?, outcome class, groups, policy name, requester is owner).')
     if not ctx.regen(only=['policies']):
         use_fallback_tables(ctx)
+    del _loaded_cases[:]
     ctx.prove('props/C03.v', extra_targets=['theories/Policy/AccessCases.v'])
     eng = kdrv.Engine(workdir=ctx.work)
     try:
@@ -1057,6 +1081,11 @@ def run(ctx):
     finally:
         eng.close()
     histories(ctx)
+    bad = ctx.run_cases('policy_file_loader', HEADER_C, _loaded_cases, 'chk_loaded', shard=10,
+                        what='load_document (Policy/PolicyFile.v) vs the dict built by kmip.core.policy.read_policy_from_file, and '
+                             'document_meaning vs the harness reading of the document, structurally, for every policy document used in this run')
+    for i in bad[:3]:
+        ctx.disagreement('policy_file_loader', {'case': _loaded_cases[i][:1500]})
     ctx.cov['trusted_extra'] = ['translate/gen_policies.py (ast pass over engine.py, reflection of kmip.core.policy.policies; fail closed)',
                                 'harness/c03.py printers and request builders; harness/kdrv.py',
                                 'SQLite row lookup by identifier (canonical decimal identifiers only)',
